@@ -6,12 +6,14 @@ import Goyang.Lemmas.DevExtAugMain
 import Goyang.Lemmas.DevExtUses
 import Goyang.Lemmas.DevExtLink
 import Goyang.Lemmas.DevExtFuel
+import Goyang.Lemmas.DevExtLoad
 /-
 C08 — deviations change exactly what they name, in written order, or are reported.
 Property theorems only; helper lemmas live in Goyang/Lemmas/Deviate.lean and, for the frame across
 module sets, in Goyang/Lemmas/DevExt{Base,Stage,Conv,Main}.lean (base without `uses` / augments),
-DevExt{Aug,AugLoop,AugMain}.lean (augments in the base) and DevExt{Uses,Link,Fg,Fuel}.lean (`uses` in the base:
-two registries at one fuel, the linking stage, the grouping search at two fuels, `toEntry` at two fuels).
+DevExt{Aug,AugLoop,AugMain}.lean (augments in the base) and DevExt{Uses,Link,Fg,Fuel,Load}.lean (`uses` in the base:
+two registries at one fuel, the linking stage, the grouping search at two fuels, `toEntry` at two fuels;
+`DevExtCore` from `Registry.add`).
 
 Reading aid.
 * `Spec.Deviate` is the transcription of RFC 7950 §7.20.3.2: `violations p s` lists every condition
@@ -99,6 +101,8 @@ Status of the statements of DESIGN 7.8.
     fuel or linking assumed**: `DevExtCore`, `PlugAgree` and `ModImports` (imports of nested statements
     with the keyword `module` / `submodule` resolve alike; vacuous — `FlatModKw` — for every tree the AST
     builder accepts).  Restriction (a) "no `uses` in the base" is lifted in full.
+  - `frame_across_modules_loaded`: the same with the structural half of `DevExtCore` computed from
+    `Registry.add` of one more module onto a loaded base (`Lemmas/DevExtLoad.lean`).
   Still restrictions of the proofs, not of the claim: the new modules sort after the base modules
   (table keys and full names), no submodules.  Where the hypotheses do not hold the runner's
   with/without comparison checks the statement case by case.
@@ -563,6 +567,28 @@ theorem frame_across_modules_with_uses_flat (B X : Registry) (ds : List Mod) (dk
     FrameAcrossModules X B opts plug (newTargets B X opts plug) :=
   frame_across_modules_with_uses B X ds dk opts plug hext hplug (modImports_of_flat hext hflat)
 
+open Goyang.Lemmas.DevExt in
+/-- **The same in terms of loading**: `B` a registry as loading produces it (`Bridge.TablesOK`: sequence
+numbers are positions, the rows of the tables point to loaded modules — proved of every result of
+`Registry.loadAll` / `Model.loadTexts`), `X` the result of adding (`Registry.add` = `Modules.add`) one more
+module statement `d` whose name is not yet bound.  The structural half of `DevExtCore` (module list and
+table grow at the end, new sequence number, rows) then holds by computation (`Lemmas/DevExtLoad.lean`:
+`add_fresh`, `devExtCore_of_add`); what is asked are the conditions on the contents: `d` is deviation-only
+and sorts after the modules of `B` (rows `newRows` and full name), nobody in `B` imports it or belongs to it,
+`B` has no submodules and no nested `module` keyword, the type resolution agrees. -/
+theorem frame_across_modules_loaded (B X : Registry) (d : Stmt) (opts : Opts) (plug : Plug)
+    (hB : Goyang.Lemmas.Bridge.TablesOK B) (ha : B.add d = .ok X)
+    (hsub : (⟨B.mods.length, d⟩ : Mod).isSub = false) (hfresh : B.modules.get? d.arg = none)
+    (subsB : B.subModules = [])
+    (keyLast : ∀ kb ∈ B.modules, ∀ kd ∈ newRows B.mods.length d, kb.1 < kd.1)
+    (nameLast : ∀ m ∈ B.mods, m.fullName < (⟨B.mods.length, d⟩ : Mod).fullName)
+    (imports : ∀ m ∈ B.mods, ∀ i ∈ m.imports, X.findModule false i = B.findModule false i)
+    (ownerEq : ∀ m ∈ B.mods, X.owner m = B.owner m)
+    (devOnly : DeviationOnly d) (hplug : PlugAgree plug B X) (hflat : FlatModKw B) :
+    FrameAcrossModules X B opts plug (newTargets B X opts plug) :=
+  frame_across_modules_with_uses_flat B X _ _ opts plug
+    (devExtCore_of_add hB ha hsub hfresh subsB keyLast nameLast imports ownerEq devOnly) hplug hflat
+
 /-! #### non-vacuity -/
 section FrameExample
 open Goyang.Lemmas.DevExt
@@ -821,6 +847,15 @@ example : DevExtCore regBu regXu [⟨2, exZ⟩] [("z-dev@2024-01-01", 2), ("z-de
   change noUses exAu = true at h1
   rw [h2] at h1
   cases h1
+
+/-- Non-vacuity of `frame_across_modules_loaded`: the registry with z-dev IS the result of adding z-dev to the
+loaded base a (with `uses`), b; the base has `TablesOK` (as every loaded registry), z-dev is a module with a
+fresh name, and its rows are the ones `newRows` computes. -/
+example : Goyang.Lemmas.Bridge.TablesOK regBu ∧ regBu.add exZ = .ok regXu ∧
+    (⟨regBu.mods.length, exZ⟩ : Mod).isSub = false ∧ regBu.modules.get? exZ.arg = none ∧
+    newRows regBu.mods.length exZ = [("z-dev@2024-01-01", 2), ("z-dev", 2)] :=
+  ⟨Goyang.Lemmas.Bridge.tablesOK_loadFrom _ _ Goyang.Lemmas.Bridge.tablesOK_empty, rfl, by decide +kernel,
+    by decide +kernel, by decide +kernel⟩
 
 /-- **`FuelStable` (the hypothesis of `frame_across_modules_uses`) asks too much**: it fails for the base
 a, b above, whose `uses g` resolves.  The call: the `uses` statement of module a with 800 copies of the
